@@ -443,28 +443,23 @@ impl<K: CacheKey + 'static> AsyncCache<K> for MemoryCache<K> {
         #[cfg(feature = "verif-hooks")]
         crate::verif_hooks::sched_point("mem.put.before_insert");
 
+        // Count the new entry before it becomes visible: a concurrent remove,
+        // clear or eviction subtracts what it takes out of the map, and must
+        // never subtract an entry that has not been added yet
+        self.entry_count.fetch_add(1, Ordering::Relaxed);
+        self.memory_usage
+            .fetch_add(size_bytes as u64, Ordering::Relaxed);
+        #[cfg(feature = "verif-hooks")]
+        crate::verif_hooks::sched_point("mem.put.counted");
+
         // Insert or update entry
         if let Some(old_entry) = self.storage.insert(key, entry) {
             #[cfg(feature = "verif-hooks")]
             crate::verif_hooks::sched_point("mem.put.replaced");
-            // Updating existing entry - adjust memory usage
-            let old_size = old_entry.size_bytes as u64;
-            let new_size = size_bytes as u64;
-
-            if new_size > old_size {
-                self.memory_usage
-                    .fetch_add(new_size - old_size, Ordering::Relaxed);
-            } else {
-                self.memory_usage
-                    .fetch_sub(old_size - new_size, Ordering::Relaxed);
-            }
-        } else {
-            // New entry
-            #[cfg(feature = "verif-hooks")]
-            crate::verif_hooks::sched_point("mem.put.inserted");
-            self.entry_count.fetch_add(1, Ordering::Relaxed);
+            // Replaced an existing entry - the old one leaves the cache
+            self.entry_count.fetch_sub(1, Ordering::Relaxed);
             self.memory_usage
-                .fetch_add(size_bytes as u64, Ordering::Relaxed);
+                .fetch_sub(old_entry.size_bytes as u64, Ordering::Relaxed);
         }
 
         self.metrics.record_put(size_bytes, start_time.elapsed());
@@ -511,11 +506,17 @@ impl<K: CacheKey + 'static> AsyncCache<K> for MemoryCache<K> {
     }
 
     async fn clear(&self) -> CacheResult<()> {
-        self.storage.clear();
+        // Subtract exactly what is removed instead of zeroing the counters:
+        // a put or remove running concurrently does its own accounting, and
+        // zeroing would leave the counters out of step (or wrapped below zero).
+        self.storage.retain(|_, entry| {
+            self.entry_count.fetch_sub(1, Ordering::Relaxed);
+            self.memory_usage
+                .fetch_sub(entry.size_bytes as u64, Ordering::Relaxed);
+            false
+        });
         #[cfg(feature = "verif-hooks")]
         crate::verif_hooks::sched_point("mem.clear.cleared");
-        self.entry_count.store(0, Ordering::Relaxed);
-        self.memory_usage.store(0, Ordering::Relaxed);
         self.metrics.reset();
         Ok(())
     }
